@@ -63,8 +63,8 @@ Proof. vm_compute. repeat split; eexists; reflexivity. Qed.
 
 (* F-C12c: the stop callback of interval() took _mx and then called cancel(): request_stop() never returned *)
 Example regress_d650829_self_deadlock :
-  irun_from true ist0 [[1]; [2]; [3]] = [[0; 0; 0]; [0; 0; 1]; [-998]] /\
-  irun_from false ist0 [[1]; [2]; [3]] = [[0; 0; 0]; [0; 0; 1]; [0; 2; 0]].
+  irun_from true tag ist0 [[1]; [2]; [3]] = [[0; 0; 0; 0; 0; 0]; [0; 0; 1; 0; 0; 0]; [-998]] /\
+  irun_from false tag ist0 [[1]; [2]; [3]] = [[0; 0; 0; 0; 0; 0]; [0; 0; 1; 0; 0; 0]; [0; 2; 0; 2; 0; 0]].
 Proof. vm_compute. split; reflexivity. Qed.
 
 (* F-C12d (found by this component, repaired by fixes/C12-stop-lost-wakeup.patch): the worker decided to wait (it holds
@@ -76,3 +76,12 @@ Example regress_stop_lost_wakeup :
   w_mode (wrun true wst0 [WIter; WStop; WBlock; WIter]) = WFin.
 Proof. vm_compute. split; reflexivity. Qed.
 (* the universally quantified versions are Timer2Proofs.lost_stop_old / stop_ends_worker *)
+
+(* seeded change C12-5 (never in /repo; kept as the counterpart of c12_interval_stop_hits_own): if all generators used
+   ONE ident (a `static constexpr` tag), a stop request for generator 0 cancels generator 1's sleep — generator 1 ends
+   although its token was never signalled, generator 0 stays asleep *)
+Example regress_shared_ident :
+  let ops := [[1; 0]; [1; 1]; [2; 1]; [2; 0]; [3; 0]] in
+  last (irun_from false (fun _ => 1) ist0 ops) [] = [0; 0; 1; 0; 2; 0] /\
+  last (irun_from false tag ist0 ops) [] = [0; 2; 2; 2; 0; 0].
+Proof. vm_compute. split; reflexivity. Qed.
